@@ -186,7 +186,7 @@ theorem swapBits_apply (x y : Nat) (b : Bits) (i : Nat) :
   · subst hx; rw [swapBits_left, swapWire_left]
   · by_cases hy : i = y
     · subst hy; rw [swapBits_right, swapWire_right]
-    · rw [swapBits_other _ _ _ hx hy, swapWire_other x y hx hy]
+    · rw [swapBits_other_tr _ _ _ hx hy, swapWire_other x y hx hy]
 
 /-- Holds for all `x`, `y` (also `x = y`, where both `swapBits x x` and `swapWire x x` are the
 identity). -/
